@@ -279,4 +279,33 @@ pub fn c17(cx: &mut Ctx) {
             }
         }
     }
+    // the same rules on a flow created for a redirect: headers the caller adds there count in full, also when
+    // they are named like the ones suppressed from the previous request
+    for (ai, added) in [vec![("content-length", &b"3"[..])], vec![("content-length", &b"3"[..]), ("content-length", &b"3"[..])],
+                        vec![("content-length", &b"abc"[..])], vec![("content-length", &b"-1"[..])], vec![("host", &b"x.test"[..]), ("host", &b"y.test"[..])],
+                        vec![("transfer-encoding", &b"chunked"[..])], vec![("content-length", &b"4"[..]), ("cookie", &b"n=1"[..])]].iter().enumerate() {
+        for depth in [1usize, 2] {
+            for despite in [false, true] {
+                for orig_cl in [false, true] {
+                    cx.case("redir");
+                    let mut hs: Vec<(&str, &[u8])> = vec![("cookie", b"o=1"), ("authorization", b"Basic b2xk")];
+                    if orig_cl { hs.push(("content-length", b"5")); }
+                    let m = if orig_cl { "POST" } else { "GET" };
+                    if cx.rec.new_flow(&format!("{} HTTP/1.1 http://a.test/o {}", m, super::hdrs(&hs))) != "ok" { continue; }
+                    let mut r = Rng::for_case(cx.seed, 1700 + ai as u64);
+                    let mut ok = true;
+                    for _ in 0..depth { if !hop(cx, &mut r, 303, "/next") { ok = false; break; } }
+                    if !ok || cx.rec.state() != "prepare" { continue; }
+                    for (k, v) in added { cx.op(&format!("hdr {} {}", k, hx(v))); }
+                    if despite { cx.op("despite"); }
+                    cx.op("proceed");
+                    cx.op("write 1000");
+                    cx.op("canproceed");
+                    cx.op("write 1000");
+                    cx.op("canproceed");
+                    cx.op("proceed");
+                }
+            }
+        }
+    }
 }
